@@ -588,7 +588,7 @@ pub fn meta() -> CheckMeta {
     CheckMeta {
         id: "C18",
         level: "exploration",
-        rule: "complete enumeration: 5 families (legendre, hermite, laguerre, chebyshev, chebyshev_second) x n = 0..20 x zero tolerance {1e-14,1e-12,1e-10,1e-8,1e-6} x {f64, Complex<f64>} = 1050 cells; every cell is a distinct non-trivial case (hash of family, n, tolerance, field). Per cell: order() == n, every coefficient against the exact rational closed form, identities through evaluate (P_n(+-1), L_n(0), H_n(0), parity, T_n(cos t)=cos nt, U_n(cos t) sin t = sin (n+1)t at real and complex t), and the three-term recurrence between the outputs for n-1, n, n+1".into(),
+        rule: "complete enumeration: 5 families (legendre, hermite, laguerre, chebyshev, chebyshev_second) x n = 0..20 x zero tolerance {1e-14,1e-12,1e-10,1e-8,1e-6} x {f64, Complex<f64>} = 1050 cells; every cell is a distinct non-trivial case (hash of family, n, tolerance, field). Per cell: order() == n, every coefficient against the exact rational closed form, identities through evaluate (P_n(+-1), L_n(0), H_n(0), parity, T_n(cos t)=cos nt, U_n(cos t) sin t = sin (n+1)t at real and complex t), and the three-term recurrence between the outputs for n-1, n, n+1. Stage interleaved-precisions: inside one closure (one thread) all five constructors are called in one precision and a cell of the other precision is judged right afterwards (210 + 210 cells)".into(),
         assumptions: vec![
             "exact coefficients: closed forms in i128/u128, agreeing with the integer three-term recurrences for all n <= 20 (checked in stage selfcheck); numerators and denominators are exactly representable in f64, so the reference value is the correctly rounded rational".into(),
             format!("coefficient bound {} eps max(n,1) (|exact_k| + theta max_j|exact_j|), theta = 1 for chebyshev (FFT products), 0 otherwise (cancellation-free integer recurrences / per-coefficient closed form: exactly-zero coefficients must be exactly zero); evaluation identities {} eps max(n,1) max_j|exact_j| sum_k|x|^k; recurrence residual {} eps (n+1) (sum of term scales)", KC, KE, KR),
@@ -624,6 +624,42 @@ pub fn stages(ctx: &Ctx) -> Vec<Stage> {
         let tol = if i / 105 == 0 { 1e-6f32 } else { 1e-5f32 };
         run_case_f32(rep, f, n, tol);
     }));
+    // History independence: a constructor's result must not depend on what was computed before on
+    // the same thread (e.g. tables memoised in the scalar type of the first caller). Each case
+    // calls all five constructors in one precision first and then judges the other precision,
+    // inside one closure, i.e. on one thread.
+    st.push(Stage::new("interleaved-precisions", (FAMS.len() * (NMAX as usize + 1) * 2 * 2) as u64, move |i, rep| {
+        let f = FAMS[(i % 5) as usize];
+        let n = ((i / 5) % (NMAX as u64 + 1)) as u32;
+        let complex = (i / 105) % 2 == 1;
+        let single_first = i / 210 == 0;
+        if single_first {
+            for g in FAMS {
+                for m in [n.max(4), NMAX] {
+                    let _ = probe::guard(|| match g {
+                        Fam::Legendre => special::legendre::<f32>(m, 1e-6).map(|_| ()),
+                        Fam::Hermite => special::hermite::<f32>(m, 1e-6).map(|_| ()),
+                        Fam::Laguerre => special::laguerre::<f32>(m, 1e-6).map(|_| ()),
+                        Fam::Cheb1 => special::chebyshev::<f32>(m, 1e-6).map(|_| ()),
+                        Fam::Cheb2 => special::chebyshev_second::<f32>(m, 1e-6).map(|_| ()),
+                    });
+                }
+            }
+            rep.count("interleaved/double_precision_cases_after_single_precision_calls", 1);
+            if complex {
+                run_case::<C64>(rep, f, n, 1e-10, n_theta);
+            } else {
+                run_case::<f64>(rep, f, n, 1e-10, n_theta);
+            }
+        } else {
+            for g in FAMS {
+                let _ = construct::<f64>(g, n.max(4), 1e-10);
+                let _ = construct::<C64>(g, NMAX, 1e-10);
+            }
+            rep.count("interleaved/single_precision_cases_after_double_precision_calls", 1);
+            run_case_f32(rep, f, n, 1e-6);
+        }
+    }));
     st
 }
 
@@ -633,6 +669,8 @@ pub fn thresholds(_ctx: &Ctx, rep: &Report) -> Vec<Threshold> {
         Threshold { what: "cells (family, n, tolerance, field) enumerated".into(), required: 1050.0, observed: rep.counter("cells") as f64 },
         Threshold { what: "single-precision cells enumerated".into(), required: 210.0, observed: rep.counter("f32/cells") as f64 },
     ];
+    t.push(Threshold { what: "double-precision cells judged right after single-precision constructor calls on the same thread".into(), required: 210.0, observed: rep.counter("interleaved/double_precision_cases_after_single_precision_calls") as f64 });
+    t.push(Threshold { what: "single-precision cells judged right after double-precision constructor calls on the same thread".into(), required: 210.0, observed: rep.counter("interleaved/single_precision_cases_after_double_precision_calls") as f64 });
     for f in FAMS {
         t.push(Threshold { what: format!("{} cells enumerated", f.name()), required: 210.0, observed: rep.counter(&format!("{}/cells", f.name())) as f64 });
         t.push(Threshold { what: format!("{} three-term recurrences checked between consecutive outputs", f.name()), required: 190.0, observed: rep.counter(&format!("{}/recurrences_checked", f.name())) as f64 });
